@@ -52,12 +52,16 @@ def check(run):
                     note="Lua script + key ttl + redisAlive/monitor/rescue limiter (both script fixes in), 2 goroutines "
                          "on 2 instances, (rate,burst) in {(2,3),(5,2)}, 3 calls, callers up to 1 s behind, checked step by "
                          "step against TokenBucket")
+    run.model_check(FAM, "TokenImpl", "TokenImplMC3.cfg", workers=w, heap="4g",
+                    note="3 goroutines on 2 instances (two share an instance), (rate,burst) = (5,2), 3 calls")
     bugs = [("TokenImpl", "TokenImplBugTtl.cfg",
              "ttl = floor(2*burst/rate) without a lower bound: SETEX 0 fails for burst < rate/2"),
             ("TokenImpl", "TokenImplBugTs.cfg",
              "the script stores the caller's second even if it is older than the stored one")]
     if thorough:
         bugs += [("TokenImpl", "TokenImplBugNil.cfg", "a refused request (nil reply) treated as a store error"),
+                 ("TokenImpl", "TokenImplBugMon.cfg", "startMonitor clears redisAlive before looking at monitorStarted: "
+                  "meeting a leaving monitor the instance is stuck in fallback mode (NeverStuck)"),
                  ("PeriodImpl", "PeriodImplBug.cfg", "INCRBY and EXPIRE as two commands")]
     for module, cfg, what in bugs:
         run.model_check(FAM, module, cfg, workers=2, expect="violation", note="documented counterexample: " + what)
@@ -74,8 +78,6 @@ def check(run):
                         note="as TokenImplMC.cfg with (rate,burst) in {(2,1),(2,3),(5,2)} and advances of 1 and 3 s")
         run.model_check(FAM, "TokenImpl", "TokenImplMC4.cfg", workers=w, timeout=1500, heap="4g",
                         note="4 calls, (rate,burst) = (5,2)")
-        run.model_check(FAM, "TokenImpl", "TokenImplMC3.cfg", workers=w, heap="4g",
-                        note="3 goroutines on 2 instances, (5,2)")
     if thorough:
         apalache(run)
     # ---- spec -> code
